@@ -270,15 +270,22 @@ func nativeReplay(eng *sym.Engine, h HarnessDef, replayFile string, v sym.Violat
 }
 
 // validateSamples executes sampled non-violating paths natively and compares observations.
-func validateSamples(eng *sym.Engine, h HarnessDef, st *sym.ExploreStats, params map[string]int) (int, []string) {
+type nativeFail struct {
+	Label  string
+	Inputs []sym.ReplayInput
+	Extra  map[string]any
+}
+
+func validateSamples(eng *sym.Engine, h HarnessDef, st *sym.ExploreStats, params map[string]int) (int, []string, []nativeFail) {
 	if len(st.Samples) == 0 {
-		return 0, nil
+		return 0, nil, nil
 	}
 	bin, err := buildNative(h)
 	if err != nil {
-		return 0, []string{err.Error()}
+		return 0, []string{err.Error()}, nil
 	}
 	var errs []string
+	var fails []nativeFail
 	n := 0
 	for i, s := range st.Samples {
 		if s.Outcome != "ok" || s.HadViolation {
@@ -294,7 +301,9 @@ func validateSamples(eng *sym.Engine, h HarnessDef, st *sym.ExploreStats, params
 			continue
 		}
 		if len(res.Failed) > 0 {
-			errs = append(errs, fmt.Sprintf("sample %d: native run failed assertions %v that the engine proved on this path; inputs=%v", i, res.Failed, s.Inputs))
+			for _, l := range res.Failed {
+				fails = append(fails, nativeFail{Label: l, Inputs: s.Inputs, Extra: s.Extra})
+			}
 			continue
 		}
 		if strings.Join(res.Observed, ";") != strings.Join(s.Observed, ";") {
@@ -303,7 +312,7 @@ func validateSamples(eng *sym.Engine, h HarnessDef, st *sym.ExploreStats, params
 		}
 		n++
 	}
-	return n, errs
+	return n, errs, fails
 }
 
 func cmdReplay(args []string) int {
